@@ -49,9 +49,10 @@ Notation reaches := (reaches V verts nbrs mask lab).
 Notation active := (active K V mask lab d).
 Notation check_vertex := (check_vertex K leb eqb okb plus zero V nbrs mask lab w lo d).
 Notation check_out_edges := (check_out_edges K leb plus V nbrs mask lab w d).
-Notation chain_set := (chain_set K eqb plus V eqV verts nbrs mask lab w lo d).
-Notation hint_ok := (hint_ok K eqb plus V eqV nbrs mask lab w lo d).
-Notation grow := (grow K eqb plus V eqV nbrs mask lab w lo d).
+Notation chain_set := (chain_set K eqb plus V eqV verts nbrs mask lab w d).
+Notation eqVL := (eqVL V eqV).
+Notation hint_ok := (hint_ok K eqb plus V eqV nbrs mask w d).
+Notation grow := (grow K eqb plus V eqV nbrs mask w d).
 Notation prop_check := (prop_check K leb eqb okb plus zero V eqV verts nbrs mask lab w lo d).
 Notation Spec := (Spec K le plus zero V verts nbrs mask lab w lo d).
 
@@ -172,53 +173,65 @@ Proof.
 Qed.
 
 (* ---------- tight chain ---------- *)
-Definition realised (v : V) : Prop :=
-  exists s p, reaches s p v /\ d v = Some (pcost zero s p) /\ lab s = lo v.
+Definition realised (vl : V * Z) : Prop :=
+  exists s p, reaches s p (fst vl) /\ d (fst vl) = Some (pcost zero s p) /\ lab s = snd vl.
 
-Lemma grow_realised : forall R vu, (forall x, In x R -> realised x) ->
-  forall x, In x (grow R vu) -> realised x.
+Lemma existsb_eqVL : forall vl l, existsb (eqVL vl) l = true -> In vl l.
 Proof.
-  intros R [v u] HR x Hx. unfold PropSpec.grow in Hx. cbn [fst] in Hx.
-  destruct (existsb (eqV v) R); [apply HR; exact Hx|].
-  destruct (hint_ok R (v, u)) eqn:Hh; [|apply HR; exact Hx].
-  destruct Hx as [Hx|Hx]; [subst x|apply HR; exact Hx].
-  unfold PropSpec.hint_ok in Hh. cbn [fst snd] in Hh.
-  destruct (existsb (eqV u) R) eqn:HuR; [|discriminate].
-  destruct (existsb (eqV v) (nbrs u)) eqn:Env; [|discriminate].
-  destruct (mask v && (lab v =? 0)) eqn:Hmv; [|discriminate].
-  apply andb_prop in Hmv. destruct Hmv as [Hmv Hlv].
-  apply existsb_eqV in HuR. apply existsb_eqV in Env.
-  destruct (HR u HuR) as [s [p [[Hs [Hp Hl]] [Hdu Hlab]]]].
-  rewrite Hdu in Hh. destruct (d v) as [dv|] eqn:Hdv; [|discriminate].
-  apply andb_prop in Hh. destruct Hh as [Edv Hlo]. apply eqb_eq in Edv.
-  exists s, (p ++ [v]). split; [|split].
-  - split; [exact Hs|]. split; [|apply last_of_app].
-    apply is_path_app; [exact Hp|]. rewrite Hl. split; assumption.
-  - rewrite pcost_app, Hl, <- Edv. exact Hdv.
-  - lia.
+  intros [v z] l H. apply existsb_exists in H. destruct H as [[x y] [Hin He]].
+  unfold PropSpec.eqVL in He. cbn [fst snd] in He.
+  destruct (eqV v x) eqn:E; [|discriminate]. apply eqV_eq in E. subst x.
+  assert (z = y) by lia. subst y. exact Hin.
 Qed.
 
-Theorem tight_chain_sound : forall hint v, In v (chain_set hint) -> realised v.
+Lemma grow_realised : forall R h, (forall x, In x R -> realised x) ->
+  forall x, In x (grow R h) -> realised x.
+Proof.
+  intros R [[v u] l] HR x Hx. unfold PropSpec.grow in Hx. cbn [fst snd] in Hx.
+  destruct (existsb (eqVL (v, l)) R); [apply HR; exact Hx|].
+  destruct (hint_ok R ((v, u), l)) eqn:Hh; [|apply HR; exact Hx].
+  destruct Hx as [Hx|Hx]; [subst x|apply HR; exact Hx].
+  unfold PropSpec.hint_ok in Hh. cbn [fst snd] in Hh.
+  destruct (existsb (eqVL (u, l)) R) eqn:HuR; [|discriminate].
+  destruct (existsb (eqV v) (nbrs u)) eqn:Env; [|discriminate].
+  destruct (mask v) eqn:Hmv; [|discriminate].
+  apply existsb_eqVL in HuR. apply existsb_eqV in Env.
+  destruct (HR (u, l) HuR) as [s [p [[Hs [Hp Hl]] [Hdu Hlab]]]]. cbn [fst snd] in *.
+  rewrite Hdu in Hh. destruct (d v) as [dv|] eqn:Hdv; [|discriminate].
+  apply eqb_eq in Hh.
+  exists s, (p ++ [v]). cbn [fst snd]. split; [|split].
+  - split; [exact Hs|]. split; [|apply last_of_app].
+    apply is_path_app; [exact Hp|]. rewrite Hl. split; assumption.
+  - rewrite pcost_app, Hl, <- Hh. exact Hdv.
+  - exact Hlab.
+Qed.
+
+Theorem tight_chain_sound : forall hint vl, In vl (chain_set hint) -> realised vl.
 Proof.
   intros hint. unfold PropSpec.chain_set.
   set (R0 := seeds0 V verts mask lab).
   assert (H0 : forall x, In x R0 -> realised x).
-  { intros x Hx. unfold PropSpec.seeds0 in Hx. apply filter_In in Hx. destruct Hx as [Hin Hb].
+  { intros x Hx. unfold R0, PropSpec.seeds0 in Hx. apply in_map_iff in Hx. destruct Hx as [s [Hx Hin]]. subst x.
+    apply filter_In in Hin. destruct Hin as [Hin Hb].
     apply andb_prop in Hb. destruct Hb as [Hl Hm].
-    assert (Hs : mseed x) by (repeat split; [exact Hin | lia | exact Hm]).
-    destruct (mseed_active x Hs) as [_ [_ [Hlo Hd]]].
-    exists x, []. split; [|split].
-    - split; [exact Hs|]. split; [exact I | reflexivity].
+    assert (Hs : mseed s) by (repeat split; [exact Hin | lia | exact Hm]).
+    destruct (mseed_active s Hs) as [_ [_ [Hlo Hd]]].
+    exists s, []. cbn [fst snd]. split; [|split].
+    - split; [exact Hs|]. split; [exact Logic.I | reflexivity].
     - exact Hd.
-    - symmetry. exact Hlo. }
-  generalize dependent R0. induction hint as [|vu r IH]; intros R0 H0 v Hv; cbn [fold_left] in Hv.
+    - reflexivity. }
+  generalize dependent R0. induction hint as [|h r IH]; intros R0 H0 v Hv; cbn [fold_left] in Hv.
   - apply H0. exact Hv.
   - eapply IH; [|exact Hv]. apply grow_realised. exact H0.
 Qed.
 
+Lemma tight_chain_sound_pair : forall hint v l, In (v, l) (chain_set hint) ->
+  exists s p, reaches s p v /\ d v = Some (pcost zero s p) /\ lab s = l.
+Proof. intros hint v l H. exact (tight_chain_sound hint (v, l) H). Qed.
+
 (* ---------- the whole checker ---------- *)
 Theorem prop_check_sound_sec : forall hint,
-  forallb (fun v => if (lab v =? 0) && is_some (d v) then existsb (eqV v) (chain_set hint) else true) verts = true ->
+  forallb (fun v => if (lab v =? 0) && is_some (d v) then existsb (eqVL (v, lo v)) (chain_set hint) else true) verts = true ->
   Spec.
 Proof.
   intros hint Hch v Hin. split.
@@ -228,20 +241,20 @@ Proof.
     apply andb_prop in Hc. destruct Hc as [H1 H2].
     destruct (d v) as [k|]; [|discriminate]. apply eqb_eq in H2. subst k. split; [lia | reflexivity].
   - intros Hl0.
-    assert (Hreal : forall k, d v = Some k -> realised v).
+    assert (Hreal : forall k, d v = Some k -> realised (v, lo v)).
     { intros k Hk. pose proof (proj1 (forallb_forall _ _) Hch v Hin) as Hv. cbn beta in Hv.
-      rewrite Hk in Hv. assert (E : (lab v =? 0) = true) by lia. rewrite E in Hv. cbn in Hv.
-      apply existsb_eqV in Hv. eapply tight_chain_sound. exact Hv. }
+      rewrite Hk in Hv. assert (E : (lab v =? 0) = true) by lia. rewrite E in Hv. cbn [andb PropSpec.is_some] in Hv.
+      apply existsb_eqVL in Hv. eapply tight_chain_sound. exact Hv. }
     split.
     + intros [s [p Hr]]. destruct (potential_sound s p v Hr) as [k [Hk _]].
       exists k. split; [exact Hk|]. split.
-      * destruct (Hreal k Hk) as [s' [p' [Hr' [Hd' Hlab']]]].
+      * destruct (Hreal k Hk) as [s' [p' [Hr' [Hd' Hlab']]]]. cbn [fst snd] in *.
         exists s', p'. split; [exact Hr'|]. split; [|exact Hlab'].
         rewrite Hk in Hd'. inversion Hd'. reflexivity.
       * intros s' p' Hr'. destruct (potential_sound s' p' v Hr') as [k' [Hk' Hle]].
         rewrite Hk in Hk'. inversion Hk'. subst k'. exact Hle.
     + intros Hnot. destruct (d v) as [k|] eqn:Hk.
-      * exfalso. apply Hnot. destruct (Hreal k eq_refl) as [s [p [Hr _]]]. exists s, p. exact Hr.
+      * exfalso. apply Hnot. destruct (Hreal k eq_refl) as [s [p [Hr _]]]. cbn [fst snd] in Hr. exists s, p. exact Hr.
       * assert (Hc := cv v Hin). unfold PropSpec.check_vertex in Hc.
         apply andb_prop in Hc. destruct Hc as [Hc _]. apply andb_prop in Hc. destruct Hc as [_ Hc].
         assert (Hl' : (0 <? lab v) = false) by lia. rewrite Hl', Hk in Hc. split; [lia | reflexivity].
